@@ -59,14 +59,20 @@ CFG = dict(
                "statically with regex_syntax where the pattern is in its language; only StringOrTemplate::String (one literal slice) is "
                "modelled -- templated input is C15; byte offsets only (line/column of the position marker are not modelled).",
     rule="13 dialects x (regression strings incl. 'SELECT @x, b FROM t', last-resort probes, own corpus, cross-dialect corpus, rule "
-         "fixture snippets, token-level mutations, junk stream with @ $ \\ lone quotes non-ASCII CR/CRLF control chars, junk spliced into SQL); "
-         "each lexed by the real Lexer::lex: property observed directly (concat, tiling, raw=slice, src=tpl, one EOF at len, no panic/Err) and, "
+         "fixture snippets, token-level mutations, junk stream with @ $ \\ lone quotes non-ASCII CR/CRLF control chars, junk spliced into SQL, "
+         "2-/3-/4-byte characters inside every token shape [32 comment / quote / dollar / literal / identifier styles, terminated and "
+         "unterminated, six layouts, enumerated + random mixtures], large inputs [44 shapes: one token or one unterminated token of 450 kB "
+         "and 1.3 MB in every quoting / comment / literal style, many-token inputs of 16 and 48 kB; observed directly only]); "
+         "each lexed by the real Lexer::lex on a helper thread under a CPU-time watchdog (a call that does not return is a failing input): "
+         "property observed directly (returns, concat, tiling, raw=slice, src=tpl, one EOF at len, no panic/Err) and, "
          "for a per-class budget of inputs <= 600 bytes, the Gallina model run on the recorded oracle answers must produce the same token list "
          "(kind, raw, source slice, templated slice). non-trivial = at least 4 distinct token kinds",
     assumptions=["oracle contracts H_match_bounds, H_match_progress, H_search_contract, H_rx_contract, H_resort_progress, H_trim_greedy "
                  "(monitored on every recorded answer; blocking)",
                  "pattern answers depend only on the &str they are given (the model's oracles additionally receive the absolute offset)",
                  "regex/cursor match boundaries are UTF-8 character boundaries (the model slices bytes)",
-                 "only untemplated input (StringOrTemplate::String) is modelled"],
+                 "only untemplated input (StringOrTemplate::String) is modelled",
+                 "a lexer call is taken not to return when its thread has used 10 s + 15 ms/kB^2 of CPU time (15 s + 40 s/MB for the "
+                 "generated one-token inputs of 100 kB and more); the watchdog is self-tested on every run (blocking monitor)"],
     show_fn={"lex": "model"},
 )
